@@ -1067,6 +1067,102 @@ fn probe_empty_store(ctx: &mut Ctx) {
     }
 }
 
+/// A doc store in the previous format (`DocStoreVersion::V1`: dates as microseconds), as written
+/// by tantivy ≤ 0.21 and still readable (`INDEX_FORMAT_OLDEST_SUPPORTED_VERSION`). Built here from a
+/// current store by setting the version field of its footer to 1; the date bytes of the document
+/// are then microseconds by definition of the format. Merging must not change what is returned.
+fn case_v1_store(ctx: &mut Ctx, sch: &Sch, sub: u64) {
+    use crate::dirs::VDir;
+    let mut rng = Rng::new(sub);
+    let case = json!({"kind": "v1", "sub": sub.to_string()});
+    let date_field = sch.fields.iter().find(|f| f.kind == Kind::Date && f.stored).unwrap().field;
+    let title = sch.fields[0].field;
+    let with_deletes = rng.chance(1, 2);
+    let many = rng.chance(1, 2); // enough blocks for the stacking path
+    let bs = if many { 1 } else { 16384 };
+    let mut doc0_bytes: Vec<u8> = vec![];
+    let res = catch_unwind(AssertUnwindSafe(|| -> tantivy::Result<Option<(String, String, String, String, String)>> {
+        let vdir = VDir::new();
+        let settings = IndexSettings { docstore_compression: Compressor::None, docstore_blocksize: bs, ..Default::default() };
+        let index = Index::create(vdir.clone(), sch.schema.clone(), settings)?;
+        let mut w: IndexWriter = index.writer_with_num_threads(1, 30_000_000)?;
+        w.set_merge_policy(Box::new(NoMergePolicy));
+        let n = if many { 12 } else { 3 };
+        // the raw i64 on disk; as microseconds it is a date in 2023
+        let raw: i64 = 1_700_000_000_000_000 + rng.below(1_000_000) as i64;
+        for i in 0..n {
+            let mut doc = TantivyDocument::default();
+            doc.add_text(title, format!("doc {i}"));
+            doc.add_date(date_field, DateTime::from_timestamp_nanos(raw + i as i64));
+            // other values must come back unchanged; a nested date is re-read like a top-level one
+            doc.add_field_value(sch.fields[16].field, &OwnedValue::Object(vec![
+                ("when".to_string(), OwnedValue::Array(vec![OwnedValue::Date(DateTime::from_timestamp_nanos(raw / 3)), OwnedValue::I64(-5)])),
+                ("s".to_string(), OwnedValue::Str(gen_string(&mut rng, 3))),
+            ]));
+            doc.add_field_value(sch.fields[4].field, &OwnedValue::U64(gen_u64(&mut rng)));
+            if i == 0 {
+                doc0_bytes = tantivy::verif::c09_serialize_doc(&doc, &sch.schema)?;
+            }
+            doc.add_u64(sch.id, i as u64);
+            w.add_document(doc)?;
+        }
+        w.commit()?;
+        // rewrite the store footer of the only segment: version 2 -> 1
+        let meta = index.searchable_segment_metas()?.remove(0);
+        let path = meta.relative_path(SegmentComponent::Store);
+        let mut file = vdir.raw(&path).expect("store file");
+        let t = file.len() - 8;
+        let flen = u32::from_le_bytes(file[t..t + 4].try_into().unwrap()) as usize;
+        let body_len = file.len() - 8 - flen;
+        let at = body_len - 28;
+        if u32::from_le_bytes(file[at..at + 4].try_into().unwrap()) != 2 {
+            return Ok(None);
+        }
+        file[at..at + 4].copy_from_slice(&1u32.to_le_bytes());
+        vdir.overwrite_raw(&path, &file);
+        if with_deletes {
+            w.delete_term(Term::from_field_u64(sch.id, 1));
+            w.commit()?;
+        }
+        let read_doc0 = |index: &Index| -> tantivy::Result<(String, String)> {
+            let reader = index.reader()?;
+            let searcher = reader.searcher();
+            let seg = &searcher.segment_readers()[0];
+            let ids = seg.fast_fields().u64("id")?;
+            let d = (0..seg.max_doc()).find(|d| ids.first(*d) == Some(0)).unwrap();
+            let doc: TantivyDocument = searcher.doc(DocAddress::new(0, d))?;
+            Ok((doc.to_json(&sch.schema), canon_doc(&doc)))
+        };
+        let (before, before_canon) = read_doc0(&index)?;
+        let ids = index.searchable_segment_ids()?;
+        w.merge(&ids).wait()?;
+        let (after, after_canon) = read_doc0(&index)?;
+        let expected = DateTime::from_timestamp_micros(raw);
+        Ok(Some((before, after, format!("{:?}", expected), before_canon, after_canon)))
+    }));
+    ctx.report.case(&format!("v1|{sub}"), true);
+    ctx.report.count(if many && !with_deletes { "v1-store:stacking-path" } else { "v1-store:copy-path" });
+    match res {
+        Ok(Ok(Some((before, after, expected, before_canon, after_canon)))) => {
+            // the model reads the same document bytes under version 1 and under the current version
+            let m1 = ctx.model.ask(&format!("C09 docdecv 1 {}", hex(&doc0_bytes)));
+            let m2 = ctx.model.ask(&format!("C09 docdecv 2 {}", hex(&doc0_bytes)));
+            if m1 != before_canon {
+                ctx.report.violation("model", "C09:model-decode-v1", format!("version-1 store: real {} model {}", clip(&before_canon), clip(&m1)), case.clone());
+            }
+            if before != after && !(m1 == before_canon && m2 == after_canon) {
+                // not the version mismatch the known finding names: report under its own key
+                ctx.report.violation("oracle", "C09:v1-merge-other", format!("version-1 doc store: document before the merge {before}, after {after}; not explained by decoding the same bytes under version 2 ({})", clip(&m2)), case);
+            } else if before != after {
+                ctx.report.violation("oracle", "C09:merge-v1-docstore-date", format!("segment with a version-1 doc store (dates in microseconds): document before the merge {before}, after the merge {after} (date added: {expected}); the raw bytes are copied into a version-2 store without re-encoding"), case);
+            }
+        }
+        Ok(Ok(None)) => ctx.report.notes.push("v1 case: footer layout not recognised, skipped".into()),
+        Ok(Err(e)) => ctx.report.violation("oracle", "C09:v1-store-error", format!("reading / merging a version-1 doc store failed: {e}"), case),
+        Err(_) => ctx.report.violation("oracle", "C09:v1-store-panic", "reading / merging a version-1 doc store panicked".into(), case),
+    }
+}
+
 /// stacking of whole stores through the public `StoreWriter::stack`
 fn case_stack(ctx: &mut Ctx, sub: u64) {
     let mut rng = Rng::new(sub);
@@ -1585,6 +1681,7 @@ pub fn run(ctx: &mut Ctx) {
         "merged store file (compressor none): same documents in the same order as model mergeStores of the source files".into(),
         "skip index bytes of real files (any compressor) = model SkipIndexBuilder; model seek on them = containing checkpoint".into(),
         "model iterRaw on real files with deletes = live documents".into(),
+        "version-1 doc store: model deserializeDocV 1 = what the real reader returns before a merge".into(),
     ];
     let sch = build_schema();
     let k = read_consts(ctx);
@@ -1598,6 +1695,7 @@ pub fn run(ctx: &mut Ctx) {
             "index2" => case_index_two_rounds(ctx, &sch, sub),
             "vint" => case_vint(ctx),
             "deep" => case_deep(ctx, &sch, sub as usize),
+            "v1" => case_v1_store(ctx, &sch, sub),
             k => ctx.report.notes.push(format!("unknown replay kind {k}")),
         }
         return;
@@ -1631,5 +1729,9 @@ pub fn run(ctx: &mut Ctx) {
     for _ in 0..ctx.budget(20, 400) {
         let sub = ctx.rng.next_u64();
         case_index_two_rounds(ctx, &sch, sub);
+    }
+    for _ in 0..ctx.budget(6, 40) {
+        let sub = ctx.rng.next_u64();
+        case_v1_store(ctx, &sch, sub);
     }
 }
